@@ -514,8 +514,8 @@ func (exitMon) Step(c *StepCtx) {
 		completes = len(c.S.D.Exit) > 0
 		for _, k := range c.S.D.Exit {
 			held := false
-			for i := range c.S.Alpha {
-				if c.S.Alpha[i].Name == k && c.PostDrv.Held&(1<<uint(i)) != 0 {
+			for i := range c.S.Alpha { // by key code: the sequence names keys, whichever sub-handler of the device delivers them
+				if !c.S.Alpha[i].IsAxis && c.S.Alpha[i].Code == keyCode(k) && c.PostDrv.Held&(1<<uint(i)) != 0 {
 					held = true
 				}
 			}
